@@ -217,6 +217,7 @@ def run(ctx: Context) -> None:
     clause_a(ctx)
     clause_b(ctx)
     clause_c(ctx)
+    clause_d(ctx)
 
 
 # ---------------------------------------------------------------------------------------------------------------
@@ -695,3 +696,131 @@ def clause_c(ctx: Context) -> None:
             "the other probability interfaces when T^dagger T has complex off-diagonal entries",
             construct=show(nf),
         )
+
+
+# ---------------------------------------------------------------------------------------------------------------
+# clause (d): index space of mode tuples (active positions vs original mode labels)
+# ---------------------------------------------------------------------------------------------------------------
+ACTIVE, ORIGINAL = "active", "original"
+
+
+def _param_kinds(cls: ClassInfo) -> Dict[Tuple[str, str], str]:
+    """(method, parameter) -> index space, inferred from how the parameter is used:
+    ACTIVE   it indexes the tuple of active modes (`np.array(self._get_active_modes())[modes,]`) or is handed to an ACTIVE parameter
+    ORIGINAL it is combined (set operation, concatenation, membership) with the post-selected modes - the keys of
+             `_postselections`, which `_set_postselection` stores as original labels - or handed to an ORIGINAL parameter."""
+    kinds: Dict[Tuple[str, str], str] = {}
+    originals = {"_get_postselected_modes", "_postselections"}
+    changed = True
+    while changed:
+        changed = False
+        for name, f in cls.methods.items():
+            params = [p for p in f.params()[1:]]
+            if not params:
+                continue
+            me = f.params()[0]
+            # locals bound to ORIGINAL sources
+            orig_names: Set[str] = set()
+            for n in ast.walk(f.node):
+                if isinstance(n, ast.Assign) and len(n.targets) == 1 and isinstance(n.targets[0], ast.Name):
+                    if any(isinstance(x, ast.Attribute) and x.attr in originals for x in ast.walk(n.value)):
+                        orig_names.add(n.targets[0].id)
+            for p in params:
+                if (name, p) in kinds:
+                    continue
+                k = None
+                for n in ast.walk(f.node):
+                    # X[..p..] with X derived from _get_active_modes()
+                    if isinstance(n, ast.Subscript) and any(isinstance(x, ast.Name) and x.id == p for x in ast.walk(n.slice)) \
+                            and any(isinstance(x, ast.Attribute) and x.attr == "_get_active_modes" for x in ast.walk(n.value)):
+                        k = ACTIVE
+                    # set(p).intersection(set(orig)) / orig + p / p in orig
+                    if isinstance(n, (ast.Call, ast.BinOp, ast.Compare)):
+                        names = {x.id for x in ast.walk(n) if isinstance(x, ast.Name)}
+                        attrs = {x.attr for x in ast.walk(n) if isinstance(x, ast.Attribute)}
+                        is_comb = (isinstance(n, ast.Call) and isinstance(n.func, ast.Attribute) and n.func.attr in ("intersection", "union", "difference", "isdisjoint", "issubset")) \
+                            or (isinstance(n, ast.BinOp) and isinstance(n.op, ast.Add)) or (isinstance(n, ast.Compare) and any(isinstance(o, (ast.In, ast.NotIn)) for o in n.ops))
+                        if is_comb and p in names and (names & orig_names or attrs & originals):
+                            k = ORIGINAL
+                    # handed to another method of the class whose parameter kind is known
+                    if isinstance(n, ast.Call) and isinstance(n.func, ast.Attribute) and isinstance(n.func.value, ast.Name):
+                        # any receiver: a copy of the state made in the method is an object of the same class
+                        callee = cls.find_method(n.func.attr)
+                        if callee is not None:
+                            cps = callee.params()[1:]
+                            for i, a in enumerate(n.args):
+                                if isinstance(a, ast.Name) and a.id == p and i < len(cps) and (callee.name, cps[i]) in kinds:
+                                    k = kinds[(callee.name, cps[i])]
+                            for kw in n.keywords:
+                                if isinstance(kw.value, ast.Name) and kw.value.id == p and (callee.name, kw.arg) in kinds:
+                                    k = kinds[(callee.name, kw.arg)]
+                if k is not None:
+                    kinds[(name, p)] = k
+                    changed = True
+    return kinds
+
+
+def clause_d(ctx: Context) -> None:
+    ctx.rule("C05d", "mode tuples live in one of two index spaces - positions among the still-active modes (instruction.modes as the simulator "
+                     "hands them to a step) or original mode labels (keys of the post-selection dict, arguments of the probability algorithms); "
+                     "a step hands each state method the space its parameter is used in, converting with map_to_original_modes where needed")
+    idx = get_index(ctx.repo)
+    cls = idx.find_class(STATE_MODULE, STATE_CLASS)
+    kinds = _param_kinds(cls)
+    ctx.count("C05d state-method parameters with an inferred index space", {f"{m}.{p}": k for (m, p), k in sorted(kinds.items())})
+    ctx.require_floor("C05d state-method parameters with an inferred index space (count)", len(kinds), 3)
+    n_calls = 0
+    for f, recvs in dispatchers(idx, cls):
+        if f.cls is not None:
+            continue
+        # tags of locals in the step
+        tags: Dict[str, str] = {}
+        for s in ast.walk(f.node):
+            if isinstance(s, ast.Assign) and len(s.targets) == 1 and isinstance(s.targets[0], ast.Name):
+                v = s.value
+                if isinstance(v, ast.Attribute) and v.attr == "modes" and isinstance(v.value, ast.Name) and v.value.id not in recvs:
+                    tags[s.targets[0].id] = ACTIVE
+                elif isinstance(v, ast.Call) and (dotted(v.func) or "").split(".")[-1] == "map_to_original_modes":
+                    tags[s.targets[0].id] = ORIGINAL
+
+        def tag_of(e: ast.AST) -> Optional[str]:
+            if isinstance(e, ast.Name):
+                return tags.get(e.id)
+            if isinstance(e, ast.Attribute) and e.attr == "modes" and isinstance(e.value, ast.Name) and e.value.id not in recvs:
+                return ACTIVE
+            if isinstance(e, ast.Call):
+                nm = (dotted(e.func) or "").split(".")[-1]
+                if nm == "map_to_original_modes":
+                    return ORIGINAL
+                if nm in ("tuple", "list", "array", "asarray") and e.args:
+                    return tag_of(e.args[0])
+            return None
+
+        for c in ast.walk(f.node):
+            if isinstance(c, ast.Call) and (dotted(c.func) or "").split(".")[-1] == "map_to_original_modes" and c.args:
+                n_calls += 1
+                t = tag_of(c.args[0])
+                if t == ORIGINAL:
+                    ctx.violation("C05d", f"{f.qualname}|conversion applied twice|{ast.unparse(c)[:60]}", f.file, c.lineno,
+                                  "map_to_original_modes is applied to a tuple that already holds original mode labels", ast.unparse(c)[:120])
+            if isinstance(c, ast.Call) and isinstance(c.func, ast.Attribute) and isinstance(c.func.value, ast.Name) and c.func.value.id in recvs:
+                m = cls.find_method(c.func.attr)
+                if m is None:
+                    continue
+                cps = m.params()[1:]
+                pairs = [(cps[i], a) for i, a in enumerate(c.args) if i < len(cps)] + [(k.arg, k.value) for k in c.keywords if k.arg]
+                for pname, a in pairs:
+                    want = kinds.get((m.name, pname))
+                    got = tag_of(a)
+                    if want is None or got is None:
+                        continue
+                    n_calls += 1
+                    ok = want == got
+                    key = f"{f.qualname}|{m.name}({pname}=...)|{ast.unparse(a)[:50]}"
+                    ctx.obligation("C05d", key, ok, f"{ctx.relpath(f.file)}:{c.lineno}", parameter_space=want, argument_space=got)
+                    if not ok:
+                        ctx.violation("C05d", key, f.file, c.lineno,
+                                      f"{f.name} hands {m.name} the {got}-space tuple `{ast.unparse(a)[:50]}`, but `{pname}` is used there as {want} mode "
+                                      f"labels (combined with the post-selected modes): after an earlier measurement or post-selection the wrong modes "
+                                      f"are addressed, or a valid program is refused", ast.unparse(c)[:140])
+    ctx.require_floor("C05d calls from simulation steps into state methods with a typed mode argument", n_calls, 3)
